@@ -365,6 +365,33 @@ def run(ctx) -> None:
                 rep.add("C20.R7", f"{f.qname}:deepest-producer", ok, f"{f.module.rel}:{c.lineno}", "the deepest producer is mapped to its nearest visible representative" if ok else "the deepest producer is used as it is: when it sits inside a collapsed inner container the edge is dropped instead of being drawn from that container")
     if n7 < 3:
         raise AnalysisError(f"only {n7} deepest-producer look-ups found")
+    # the consumer side: a consumer map built 'deepest first' yields nodes that may sit inside a collapsed inner
+    # container; such a map may only be used where every consumer taken from it is mapped to its nearest visible
+    # representative (otherwise the per-target visibility check silently drops the edge)
+    n7c = 0
+    for f in edge_funcs:
+        for n in walk_local(f.node):
+            if isinstance(n, ast.Assign) and isinstance(n.value, ast.Call) and "build_param_to_consumer_map" in call_names(db, n.value, f):
+                n7c += 1
+                deepest = any(k.arg == "use_deepest" and not (isinstance(k.value, ast.Constant) and k.value.value is False) for k in n.value.keywords) or len(n.value.args) > 2
+                ok = True
+                if deepest:
+                    names = {t.id for t in n.targets if isinstance(t, ast.Name)}
+                    # lists taken from the map, and the variables that iterate them
+                    lists_ = set(names)
+                    for _ in range(3):
+                        for m_ in walk_local(f.node):
+                            if isinstance(m_, ast.Assign) and len(m_.targets) == 1 and isinstance(m_.targets[0], ast.Name) and any(isinstance(x, ast.Name) and x.id in lists_ for x in ast.walk(m_.value)):
+                                lists_.add(m_.targets[0].id)
+                    elems = set()
+                    for m_ in walk_local(f.node):
+                        if isinstance(m_, (ast.For, ast.comprehension)) and any(isinstance(x, ast.Name) and x.id in lists_ for x in ast.walk(m_.iter)) and isinstance(m_.target, ast.Name):
+                            elems.add(m_.target.id)
+                    mapped = bool(elems) and all(any(isinstance(c, ast.Call) and "nearest_visible" in call_names(db, c, f) and c.args and isinstance(c.args[0], ast.Name) and c.args[0].id == e_ for c in walk_local(f.node)) for e_ in elems)
+                    ok = mapped and bool(names)
+                rep.add("C20.R7", f"{f.qname}:consumer-map", ok, f"{f.module.rel}:{n.lineno}", "consumers are looked up among visible nodes (or mapped to their nearest visible representative)" if ok else "consumers are resolved 'deepest first' without mapping them to a visible representative: a consumer inside a collapsed inner container is dropped by the visibility check and the dependency has no edge in that state")
+    if n7c < 2:
+        raise AnalysisError(f"only {n7c} consumer-map constructions found")
     nv = db.maybe_func("viz._common.nearest_visible")
     ok = nv is not None and any(isinstance(n, ast.While) for n in walk_local(nv.node)) and "is_node_visible" in src(nv.node) and "parent" in src(nv.node)
     rep.add("C20.R7", "nearest_visible:climbs-parents", ok, nv.loc() if nv else "src/hypergraph/viz/_common.py:1", "nearest_visible climbs the parent chain until a visible node is found" if ok else "nearest_visible does not climb the parent chain")
